@@ -208,5 +208,18 @@ func corpusC06() []*scen.Scenario {
 	m5 := &scen.Method{Name: "MapNeedsTypecast", Src: scen.Param{Type: "*E"}, Dst: scen.Param{Type: "*F"},
 		Notations: []scen.Notation{scen.N("typecast"), scen.N("map", "T", "B"), scen.N("skip", "S")},
 		Probes:    []scen.Probe{{Dst: "B", Mech: "map", DstT: "[]byte", SrcT: "string", Extra: "typed"}}}
-	return []*scen.Scenario{b.Manual(m1, m2, m3), b2.Manual(m4, m5)}
+	// regular (not a known finding): two-digit operand indexes
+	b3 := scen.NewBuilder(nil, scen.Profile{}, "kw-c06-many-args", "kwc06c")
+	b3.Struct("", "MA", "K int")
+	b3.Struct("", "MX", "Deep int", "Name string")
+	b3.Struct("", "MB", "K int", "N int", "M string", "P string", "Q int")
+	var extras []scen.Param
+	for i := 0; i < 8; i++ {
+		extras = append(extras, scen.Param{Type: "int"})
+	}
+	extras = append(extras, scen.Param{Type: "MX"}, scen.Param{Type: "string"}, scen.Param{Type: "*MX"})
+	m6 := &scen.Method{Name: "ManyArgs", Src: scen.Param{Type: "*MA"}, Dst: scen.Param{Type: "*MB"}, Extras: extras,
+		Notations: []scen.Notation{scen.N("map", "$10.Deep", "N"), scen.N("map", "$11", "M"), scen.N("map", "$12.Name", "P"), scen.N("map", "$2", "Q")},
+		Probes: []scen.Probe{{Dst: "N", Mech: "map", DstT: "int", Extra: "argpath"}, {Dst: "M", Mech: "map", DstT: "string", Extra: "arg"}, {Dst: "P", Mech: "map", DstT: "string", Extra: "argpath"}, {Dst: "Q", Mech: "map", DstT: "int", Extra: "arg"}}}
+	return []*scen.Scenario{b.Manual(m1, m2, m3), b2.Manual(m4, m5), b3.Manual(m6)}
 }
